@@ -194,3 +194,73 @@ Theorem M_raw_dict_roundtrip : forall rows bases required rotation,
   from_dict rows bases (raw required g) = OK g.
 Proof. exact M_raw_roundtrip. Qed.
 Print Assumptions M_raw_dict_roundtrip.
+
+(* ---- the QASM text (token stream) ------------------------------------------------------------------ *)
+From QV Require Import C13.TextModel C13.TextProofs.
+
+(* parse (print stmts) = stmts for every list of printable statements: identifiers that are identifiers and
+   not reserved, non-negative indices, positive creg sizes, gates with at least one qubit.  Float literals are
+   opaque tokens (that printing and re-reading a float is the identity is checked per case at run time). *)
+Theorem qasm_text_parse_print : forall reserved,
+  forallb (fun k => mem_str k reserved) grammar_keywords = true ->
+  forall stmts toks, Forall (printable reserved) stmts -> print_stmts stmts = OK toks ->
+  parse_qasm reserved (header ++ toks)%list = OK stmts.
+Proof. exact parse_print_stmts. Qed.
+Print Assumptions qasm_text_parse_print.
+
+(* text-level sibling of qasm_roundtrip_partial: for every exportable circuit (all n, gate lists, register
+   layouts) whose register names are identifiers, the token stream of Circuit.to_qasm is parsed back to the
+   writer's statements, and reading them gives the equivalent circuit.  PARTIAL: the writer only checks
+   islower(), names such as "1a", "a b", "measure" are refuted below. *)
+Theorem qasm_text_roundtrip_partial : forall reserved rows bases specials rotation,
+  forallb (fun k => mem_str k reserved) grammar_keywords = true ->
+  name_ok reserved "q" = true ->
+  (forall r l, In r rows -> rlabel r = Some l -> name_ok reserved l = true) ->
+  M_tables_ok rows bases rotation ->
+  (forall r, In r rows -> label_row_ok rows specials r = true -> class_fact rows bases specials r) ->
+  forall c mt toks, qasm_exportable rows specials c mt -> text_exportable reserved c ->
+  print_qasm rows c = OK toks ->
+  exists s c' gs', parse_qasm reserved toks = OK s /\ read rows bases specials rotation s = OK c' /\ cn c' = cn c
+    /\ cqueue c' = (gs' ++ map MG mt)%list /\ cmeas c' = seq (length gs') (length mt)
+    /\ Forall2 gate_equiv (filter nonM (cqueue c)) gs' /\ Forall (fun g => is_M g = false) gs'
+    /\ measurement_tuples c' = measurement_tuples c.
+Proof.
+  intros reserved rows bases specials rotation Hkw Hq Hl HM Hall c mt toks E T Hp.
+  destruct (parse_print_qasm reserved rows Hkw Hq Hl c toks T Hp) as (s & Hw & Hparse).
+  destruct (qasm_roundtrip_checked rows bases specials rotation HM Hall c mt s E Hw) as (c' & gs' & H).
+  exists s, c', gs'. split; [exact Hparse | exact H].
+Qed.
+Print Assumptions qasm_text_roundtrip_partial.
+
+Example qasm_text_roundtrip_partial_nonvacuous :
+  (forallb (fun k => mem_str k ex_reserved) grammar_keywords = true
+   /\ name_ok ex_reserved "q" = true
+   /\ (forall r l, In r ex_rows -> rlabel r = Some l -> name_ok ex_reserved l = true))
+  /\ text_exportable ex_reserved ex_c /\ exists toks, print_qasm ex_rows ex_c = OK toks.
+Proof. exact (conj ex_text_hyps (conj ex_text_exportable ex_print_ok)). Qed.
+
+Theorem qasm_text_roundtrip_refuted_register_name : forall name, In name ["1a"; "a b"; "measure"; "a-b"; "if"] ->
+  exists c toks, ex_badname_circuit name = OK c /\ print_qasm ex_rows c = OK toks
+                 /\ parse_qasm ex_reserved toks = Err EValueError.
+Proof. exact ex_badname_rejected. Qed.
+Print Assumptions qasm_text_roundtrip_refuted_register_name.
+
+(* every key that Gate.from_dict / Circuit.from_dict reads is a key that raw writes *)
+Theorem dict_keys_read_are_written : forall required_fields,
+  keys_subset ["init_args"; "init_kwargs"; "_control_qubits"] required_fields = true ->
+  forall is_m, keys_subset (from_dict_reads is_m) (gate_raw_keys required_fields is_m) = true.
+Proof.
+  intros rf H is_m. unfold keys_subset, from_dict_reads, gate_raw_keys in *.
+  rewrite forallb_forall in *. intros k Hin.
+  assert (A : forall a b, mem_str k a = true \/ mem_str k b = true -> mem_str k (a ++ b)%list = true).
+  { induction a as [|x a IH]; intros b [Ha|Hb]; simpl in *; try discriminate; auto.
+    - apply orb_true_iff in Ha. destruct Ha as [Ha|Ha]; [rewrite Ha; reflexivity|]. rewrite (IH b (or_introl Ha)). apply orb_true_r.
+    - rewrite (IH b (or_intror Hb)). apply orb_true_r. }
+  simpl in Hin. destruct Hin as [<-|[<-|[<-|Hin]]].
+  - apply A. right. reflexivity.
+  - apply A. left. apply H. simpl. tauto.
+  - apply A. left. apply H. simpl. tauto.
+  - destruct is_m; simpl in Hin; destruct Hin as [<-|[]].
+    + apply A. right. reflexivity.
+    + apply A. left. apply H. simpl. tauto.
+Qed.
